@@ -56,7 +56,7 @@ def draw_knobs(rng: random.Random, faults: bool = False, raw: bool = False) -> d
     if raw:
         k["wrap_params"] = k["comma_params"] = k["spacing"] = False
     if faults:
-        k["fault"] = rng.choice(["eio", "vanish"])
+        k["fault"] = rng.choice(["eio", "vanish", "interrupt"])
         k["mode"] = "files"
     return k
 
@@ -203,6 +203,9 @@ def make_delivery(doc: dict, dseed: int, knobs: dict) -> dict:
         fault = {"kind": "eio", "file": files[j]["name"], "offset": rng.randint(0, max(0, size - 1))}
     elif knobs["fault"] == "vanish":
         fault = {"kind": "vanish", "file": files[rng.randrange(len(files))]["name"]}
+    elif knobs["fault"] == "interrupt":
+        n_lines = sum(f["content"].count("\n") + 1 for f in files)
+        fault = {"kind": "interrupt", "k": rng.randint(1, max(2, 7 * n_lines + 20))}
     return {"mode": "files", "files": files, "chunk": knobs["chunk"], "path_flavour": knobs["path_flavour"], "fault": fault}
 
 
